@@ -11,9 +11,9 @@
   * `restore_keeps_most_recent`: after the restore and the re-insertion of the current point
     with memory size `maxcor'`, the pairs held are the most recent `min(m, maxcor')` stored
     pairs, in order, for `X` and `G` alike, and the matrices snapshot is rebuilt from them.
-  * `restart_same_memory`: consequently two checkpoints with the same `x, jac` and pairs give
-    the same memory — the next search point, which is a function of `(x, g, memory)`, is the
-    same as the one the uninterrupted run computes from these pairs.
+  * `restore_roundtrip`: conversely, the history rebuilt from the pairs of a result whose `x` is
+    the end of its stored history IS that history — the restart holds the memory of the
+    uninterrupted run, so the next search point, a function of `(x, g, memory)`, is the same.
   What a theorem cannot give: bit-equality (the reconstruction rounds) — that part is decided
   by the correspondence check (bit-exact replay of `initialize_X_and_G` through `restoreXG`)
   and by the search (pairs / next iterate compared with a tolerance).
@@ -96,15 +96,77 @@ theorem restore_keeps_most_recent (x jac : Vec α) (sk yk : List (Vec α)) (maxc
       intro h0; rw [h0] at hlen; cases sk <;> simp_all
     exact key jac yk hy hyne
 
-/-- **C06 (3)** the memory a restart builds depends on the checkpoint only through
-`x, jac, sk, yk` (and the new `maxcor`): the search point of the next iteration — a function of
-`(x, g, memory)` — is the same for any two runs that agree on these. -/
-theorem restart_same_memory (x jac : Vec α) (sk yk : List (Vec α)) (maxcor : Nat) (eps : α)
-    (δ : Type) (xbar : Vec α → Vec α → Mats α → Vec α) :
-    let r := restoreXG x jac sk yk maxcor
-    let m := updateMats x jac r.1 r.2 maxcor none eps
-    xbar x jac m.2.2.1 = xbar x jac (updateMats x jac (restoreXG x jac sk yk maxcor).1
-      (restoreXG x jac sk yk maxcor).2 maxcor none eps).2.2.1 := rfl
+/-- a list of equally long vectors is determined by its consecutive differences and its last
+element -/
+theorem eq_of_diffs_last (n : Nat) (A : List (Vec α)) :
+    ∀ B : List (Vec α), AllLen n A → AllLen n B → A.length = B.length → diffs A = diffs B →
+      A.getLast? = B.getLast? → A = B := by
+  induction A with
+  | nil => intro B _ _ hl _ _; cases B <;> simp_all
+  | cons a as ih =>
+    intro B hA hB hl hd hlast
+    cases B with
+    | nil => simp at hl
+    | cons b bs =>
+      cases as with
+      | nil =>
+        cases bs with
+        | nil => simpa using hlast
+        | cons _ _ => simp at hl
+      | cons a2 as' =>
+        cases bs with
+        | nil => simp at hl
+        | cons b2 bs' =>
+          simp only [diffs, List.cons.injEq] at hd
+          have hA' : AllLen n (a2 :: as') := fun v hv => hA v (List.mem_cons_of_mem _ hv)
+          have hB' : AllLen n (b2 :: bs') := fun v hv => hB v (List.mem_cons_of_mem _ hv)
+          have htail := ih (b2 :: bs') hA' hB' (by simpa using hl) hd.2
+            (by simpa [List.getLast?_cons_cons] using hlast)
+          simp only [List.cons.injEq] at htail
+          obtain ⟨h2, h3⟩ := htail
+          subst h2 h3
+          have la : a.length = n := hA a (List.mem_cons_self ..)
+          have lb : b.length = n := hB b (List.mem_cons_self ..)
+          have l2 : a2.length = n := hA' a2 (List.mem_cons_self ..)
+          have ea : a = vsub a2 (vsub a2 a) := (vsub_self_sub a2 a (by rw [la, l2])).symm
+          have eb : b = vsub a2 (vsub a2 b) := (vsub_self_sub a2 b (by rw [lb, l2])).symm
+          rw [ea, eb, hd.1]
+
+theorem diffs_allLen (n : Nat) (P : List (Vec α)) (h : AllLen n P) : AllLen n (diffs P) := by
+  induction P with
+  | nil => simp [diffs, AllLen]
+  | cons a as ih =>
+    cases as with
+    | nil => simp [diffs, AllLen]
+    | cons b bs =>
+      intro v hv
+      simp only [diffs, List.mem_cons] at hv
+      rcases hv with rfl | hv
+      · have lb : b.length = n := h b (by simp)
+        have la : a.length = n := h a (by simp)
+        simp only [vsub]
+        rw [vzip_len _ b a (by rw [la, lb]), lb]
+      · exact ih (fun w hw => h w (List.mem_cons_of_mem _ hw)) v hv
+
+/-- **C06 (3) — round trip.** Rebuilding the history from the pairs of a result whose `x` is the
+end of its stored history gives back exactly that history (in exact arithmetic): a restart starts
+from the very memory the uninterrupted run holds at that point, so the next search point — a
+function of `(x, g, memory)` — is the same. (The excluded case, `x` not the end of the stored
+history, is the recorded finding K4.) -/
+theorem restore_roundtrip (X : List (Vec α)) (x : Vec α) (h : AllLen x.length (X ++ [x])) :
+    (revCumsum (diffs (X ++ [x]))).map (vsub x ·) ++ [x] = X ++ [x] := by
+  have hd := diffs_allLen x.length (X ++ [x]) h
+  have hr := revCumsum_allLen x.length _ hd
+  apply eq_of_diffs_last x.length _ _ ?_ h ?_ ?_ ?_
+  · intro v hv
+    rcases List.mem_append.1 hv with hv | hv
+    · obtain ⟨c, hc, rfl⟩ := List.mem_map.1 hv
+      simp only [vsub]
+      rw [vzip_len _ x c (by rw [hr c hc])]
+    · simp only [List.mem_singleton] at hv; rw [hv]
+  · simp [revCumsum_length, diffs_length]
+  · exact diffs_restore x _ hd
+  · simp
 
 /-! ### Non-vacuity: a concrete checkpoint over `ℤ` with three pairs, restored with memory 2. -/
 section nonvacuous
@@ -116,6 +178,8 @@ example : AllLen xZ.length skZ := by
 
 example : (revCumsum skZ).map (vsub xZ ·) = [[4, 17], [5, 19], [8, 18]] := by decide
 example : diffs ((revCumsum skZ).map (vsub xZ ·) ++ [xZ]) = skZ := by decide
+example : (revCumsum (diffs [[4, 17], [5, 19], [8, 18], xZ])).map (vsub xZ ·) ++ [xZ] = [[4, 17], [5, 19], [8, 18], xZ] := by
+  decide
 end nonvacuous
 
 end Lbfgsb.C06
